@@ -26,12 +26,15 @@ type BytePred struct {
 	Strings map[types.Object][]byte
 	// Results holds the values of the last multi-value return statement that was interpreted.
 	Results []int64
+	tables  map[types.Object]*Table
 }
 
 type bpVal struct {
-	I  int64
-	B  bool
-	Is bool // is boolean
+	I   int64
+	B   bool
+	Is  bool // is boolean
+	S   string
+	IsS bool // is a string
 }
 
 type bpEnv map[types.Object]bpVal
@@ -86,6 +89,11 @@ func (bp *BytePred) eval(info *types.Info, e ast.Expr, env bpEnv, depth int) (bp
 			if v, ok := constant.Int64Val(tv.Value); ok {
 				return bpVal{I: v}, true
 			}
+			if v, ok := constant.Uint64Val(tv.Value); ok {
+				return bpVal{I: int64(v)}, true // the bit pattern
+			}
+		case constant.String:
+			return bpVal{S: constant.StringVal(tv.Value), IsS: true}, true
 		}
 	}
 	switch x := e.(type) {
@@ -133,6 +141,26 @@ func (bp *BytePred) eval(info *types.Info, e ast.Expr, env bpEnv, depth int) (bp
 			return r, false
 		}
 		t := info.Types[e].Type
+		if l.IsS || r.IsS {
+			if !l.IsS || !r.IsS {
+				return bpVal{}, false
+			}
+			switch x.Op {
+			case token.EQL:
+				return bpVal{B: l.S == r.S, Is: true}, true
+			case token.NEQ:
+				return bpVal{B: l.S != r.S, Is: true}, true
+			case token.LSS:
+				return bpVal{B: l.S < r.S, Is: true}, true
+			case token.LEQ:
+				return bpVal{B: l.S <= r.S, Is: true}, true
+			case token.GTR:
+				return bpVal{B: l.S > r.S, Is: true}, true
+			case token.GEQ:
+				return bpVal{B: l.S >= r.S, Is: true}, true
+			}
+			return bpVal{}, false
+		}
 		switch x.Op {
 		case token.LAND:
 			return bpVal{B: l.B && r.B, Is: true}, l.Is && r.Is
@@ -205,7 +233,14 @@ func (bp *BytePred) eval(info *types.Info, e ast.Expr, env bpEnv, depth int) (bp
 			if obj.Parent() != pk.Types.Scope() {
 				return bpVal{}, false
 			}
-			t := EvalTable(pk, obj.Name())
+			if bp.tables == nil {
+				bp.tables = map[types.Object]*Table{}
+			}
+			t, cached := bp.tables[obj]
+			if !cached {
+				t = EvalTable(pk, obj.Name())
+				bp.tables[obj] = t
+			}
 			if t == nil || t.Opaque {
 				return bpVal{}, false
 			}
@@ -223,8 +258,24 @@ func (bp *BytePred) eval(info *types.Info, e ast.Expr, env bpEnv, depth int) (bp
 			case constant.Bool:
 				return bpVal{B: constant.BoolVal(c), Is: true}, true
 			case constant.Int:
-				v, ok := constant.Int64Val(c)
-				return bpVal{I: v}, ok
+				if v, ok := constant.Int64Val(c); ok {
+					return bpVal{I: v}, true
+				}
+				if v, ok := constant.Uint64Val(c); ok {
+					return bpVal{I: int64(v)}, true // the bit pattern of a uint64 above MaxInt64
+				}
+				return bpVal{}, false
+			case constant.Float:
+				// an untyped float constant that denotes an integer (1e19 in an integer table)
+				if iv := constant.ToInt(c); iv.Kind() == constant.Int {
+					if v, ok := constant.Int64Val(iv); ok {
+						return bpVal{I: v}, true
+					}
+					if v, ok := constant.Uint64Val(iv); ok {
+						return bpVal{I: int64(v)}, true
+					}
+				}
+				return bpVal{}, false
 			}
 			return bpVal{}, false
 		}
@@ -232,6 +283,11 @@ func (bp *BytePred) eval(info *types.Info, e ast.Expr, env bpEnv, depth int) (bp
 	case *ast.CallExpr:
 		// conversion
 		if tv, ok := info.Types[x.Fun]; ok && tv.IsType() && len(x.Args) == 1 {
+			if b, isBasic := tv.Type.Underlying().(*types.Basic); isBasic && b.Kind() == types.String {
+				if bs, bound := bp.Strings[ObjOf(info, x.Args[0])]; bound {
+					return bpVal{S: string(bs), IsS: true}, true
+				}
+			}
 			v, ok := bp.eval(info, x.Args[0], env, depth+1)
 			if !ok || v.Is {
 				return v, ok
@@ -351,7 +407,20 @@ func (bp *BytePred) exec(info *types.Info, list []ast.Stmt, env bpEnv, depth int
 				bp.Results = bp.Results[:0]
 				var first bpVal
 				for i, r := range s.Results {
-					v, ok := bp.eval(info, r, env, depth+1)
+					var v bpVal
+					ok := false
+					if tv, has := info.Types[r]; has && tv.Type != nil && tv.Type.String() == "error" {
+						// an error result: nil, or a value made by a call (fmt.Errorf, an error constructor)
+						if IsNilIdent(info, r) {
+							v, ok = bpVal{I: 0}, true
+						} else if _, isCall := Unparen(r).(*ast.CallExpr); isCall {
+							v, ok = bpVal{I: 1}, true
+						}
+					} else if IsNilIdent(info, r) {
+						v, ok = bpVal{I: 0}, true
+					} else {
+						v, ok = bp.eval(info, r, env, depth+1)
+					}
 					if !ok {
 						return bpVal{}, false, false
 					}
@@ -455,12 +524,36 @@ func (bp *BytePred) exec(info *types.Info, list []ast.Stmt, env bpEnv, depth int
 			if obj == nil {
 				return bpVal{}, false, false
 			}
+			if se, isSlice := Unparen(s.Rhs[0]).(*ast.SliceExpr); isSlice && (s.Tok == token.ASSIGN || s.Tok == token.DEFINE) {
+				if bs, bound := bp.Strings[ObjOf(info, se.X)]; bound && se.Max == nil {
+					lo, hi := int64(0), int64(len(bs))
+					if se.Low != nil {
+						v, ok := bp.eval(info, se.Low, env, depth+1)
+						if !ok || v.Is || v.IsS {
+							return bpVal{}, false, false
+						}
+						lo = v.I
+					}
+					if se.High != nil {
+						v, ok := bp.eval(info, se.High, env, depth+1)
+						if !ok || v.Is || v.IsS {
+							return bpVal{}, false, false
+						}
+						hi = v.I
+					}
+					if lo < 0 || hi > int64(len(bs)) || lo > hi {
+						return bpVal{}, false, false
+					}
+					bp.Strings[obj] = bs[lo:hi]
+					continue
+				}
+			}
 			r, ok := bp.eval(info, s.Rhs[0], env, depth+1)
 			if !ok {
 				return bpVal{}, false, false
 			}
 			if s.Tok == token.ASSIGN || s.Tok == token.DEFINE {
-				if !r.Is {
+				if !r.Is && !r.IsS {
 					r.I = truncate(obj.Type(), r.I)
 				}
 				env[obj] = r
